@@ -85,7 +85,21 @@ def run(ctx):
                          "lengths": [45 + j], "data_seed": 800 + j, "rng_seed": 800 + j, "regimes": 2})
         ends.append({"N": 2, "W": 2, "K": 2, "beta": 2.0, "lam": 0.11, "limit": 2, "m": 2, "biased": False, "eps": 0, "joint": True,
                      "lengths": [30, 21, 26, 33, 24, 28], "data_seed": 810, "rng_seed": 810, "regimes": 2})
-        runs = runs + e2e.cached_runs(ctx, short if ctx.thorough else short[::2], "c04short") + e2e.cached_runs(ctx, ends, "c04ends")
+        # joint runs with real worker processes (multiprocessing enabled, 2-3 workers) on three to five series of unequal
+        # length whose order by length is not its own inverse permutation: list i must still belong to series i
+        mpc = [{"N": 1 + j % 2, "W": 2 + j % 2, "K": 2, "beta": 2.0, "lam": 0.11, "limit": 2, "m": 2, "biased": False, "eps": 0, "joint": True,
+                "lengths": L, "data_seed": 820 + j, "rng_seed": 820 + j, "regimes": 2, "mp": True, "procs": 2 + j % 2}
+               for j, L in enumerate([[30, 50, 40], [45, 31, 52, 38], [33, 47, 40, 54, 61]])]
+        runs = runs + e2e.cached_runs(ctx, short if ctx.thorough else short[::2], "c04short") + e2e.cached_runs(ctx, ends, "c04ends") \
+            + e2e.cached_runs(ctx, mpc, "c04mp")
+        # the same calls in one process without worker processes: list i must hold the same labels
+        serial = e2e.cached_runs(ctx, [dict(c, mp=False, procs=1) for c in mpc], "c04mp-serial")
+        for a, b in zip(e2e.cached_runs(ctx, mpc, "c04mp"), serial):
+            ctx.count("mp-vs-serial")
+            if a["error"] is None and b["error"] is None and a["result"]["point_labels"] != b["result"]["point_labels"]:
+                bad = [i for i, (x, y) in enumerate(zip(a["result"]["point_labels"], b["result"]["point_labels"])) if x != y]
+                ctx.violation("monitor", "joint run with worker processes: the label lists of series %s differ from the run without worker processes "
+                              "(lengths %s)" % (bad, a["cfg"]["lengths"]), {"case": {"cfg": a["cfg"]}})
         # a tiny in-process run keeps the front-end lines under the tracer even on a cache hit
         e2e.traced_run({"N": 1, "W": 2, "K": 2, "beta": 1.0, "lengths": [30], "limit": 1, "m": 1, "data_seed": 1, "rng_seed": 1, "joint": False})
         e2e.traced_run({"N": 1, "W": 2, "K": 2, "beta": 1.0, "lengths": [30, 25], "limit": 1, "m": 1, "data_seed": 1, "rng_seed": 1, "joint": True})
